@@ -2451,11 +2451,18 @@ func (d *Data) NewLabels(geom dvid.Geometry, img interface{}) (*Labels, error) {
 	var data []byte
 
 	if img == nil {
-		numVoxels := geom.NumVoxels()
-		if numVoxels <= 0 {
-			return nil, fmt.Errorf("illegal geometry requested: %s", geom)
+		// every extent must be positive and the byte count must be computed without wrapping around
+		requestSize := int64(bytesPerVoxel)
+		for dim := uint8(0); dim < geom.Size().NumDims(); dim++ {
+			n := int64(geom.Size().Value(dim))
+			if n <= 0 {
+				return nil, fmt.Errorf("illegal geometry requested: %s", geom)
+			}
+			if requestSize > server.MaxDataRequest/n {
+				return nil, fmt.Errorf("requested payload for %s exceeds this DVID server's set limit (%d)", geom, server.MaxDataRequest)
+			}
+			requestSize *= n
 		}
-		requestSize := int64(bytesPerVoxel) * numVoxels
 		if requestSize > server.MaxDataRequest {
 			return nil, fmt.Errorf("requested payload (%d bytes) exceeds this DVID server's set limit (%d)",
 				requestSize, server.MaxDataRequest)
